@@ -1068,8 +1068,8 @@ func c02Do(in *c02In) (c02Obs, error) {
 	if in.AE != "" {
 		hdr["Accept-Encoding"] = in.AE
 	}
-	if in.JSON {
-		hdr["Accept"] = "application/json"
+	if in.JSON { // browse looks for "application/json" anywhere in the lower-cased Accept header
+		hdr["Accept"] = []string{"application/json", "text/html, Application/JSON;q=0.9", "application/json, */*"}[len(in.Target)%3]
 	}
 	resp := doRaw(addr, in.Method, in.Target, hdr, nil)
 	o := c02Obs{Status: resp.Status, BodyLen: len(resp.Body), Err: resp.Err}
@@ -1079,6 +1079,28 @@ func c02Do(in *c02In) (c02Obs, error) {
 		o.CT = resp.Header.Get("Content-Type")
 		o.HIDs = tree.hdrIDs(resp.Header)
 		o.Hdr = strings.TrimSpace(resp.Header.Get("Etag") + " " + resp.Header.Get("Content-Length") + " " + resp.Header.Get("Last-Modified"))
+	}
+	if in.Method == "HEAD" && resp.Header != nil {
+		// a HEAD answer must be the GET answer without its body: the same status, redirect and file
+		// headers (whatever they disclose, GET discloses). A difference counts as a header of unknown origin.
+		get := doRaw(addr, "GET", in.Target, hdr, nil)
+		diff := ""
+		if get.Status != resp.Status {
+			diff = fmt.Sprintf("status %d vs GET %d", resp.Status, get.Status)
+		} else if get.Header != nil {
+			for _, k := range []string{"Location", "Etag", "Last-Modified", "Content-Encoding", "Content-Type"} {
+				if get.Header.Get(k) != resp.Header.Get(k) {
+					diff = k + " differs from GET's"
+				}
+			}
+			if resp.Header.Get("Etag") != "" && get.Header.Get("Content-Length") != resp.Header.Get("Content-Length") {
+				diff = "Content-Length differs from GET's"
+			}
+		}
+		if diff != "" {
+			o.Note = "HEAD: " + diff
+			o.HIDs = append(o.HIDs, c02UnknownID)
+		}
 	}
 	toks := map[string]bool{}
 	body := resp.Body
@@ -1972,7 +1994,7 @@ func c02GenMulti(r *Rand, thorough bool) []interface{} {
 
 func init() {
 	register(&Property{
-		ID: "C02", Imports: "V.Lib V.GoPath V.Gen_C02 V.Gen_C02b V.C02_Model", Judge: "judge", Shard: 150,
+		ID: "C02", Imports: "V.Lib V.GoPath V.Gen_C02 V.Gen_C02b V.C02_Model", Judge: "judge", Shard: 285,
 		Rule:   "real in-process sites (static; browse / with every archive type; browse /dir with zip, tar.gz; the same root under a site path prefix /pre; the origin Casketfile in a sub-directory of the root / outside it / in a sibling directory named root+x) rooted in a fixture with files, nested directories, index pages (incl. a directory named index.html and a hidden index page), .gz/.br/.zst siblings (incl. a hidden one and a directory named like one), hard links, odd names, the origin Casketfile inside the root, `internal`-hidden files and an `internal`-hidden directory, plus token files outside the root; raw request lines: exhaustive targets of depth <= 2 (3 sampled / full) over the segment alphabet {a.txt, dir, ., .., empty, %2e, %2E%2e, %2f, backslash, %5c, A.TXT, Casketfile, x} x trailing slash (static; sampled on browse with ?archive=); every directory x archive types / sort orders / JSON; open-redirect shapes (1..5 leading slashes x foreign first segment x dot-dot x directory or file-with-slash); every file x Accept-Encoding subsets and decoys; random respellings (dot segments, doubled / encoded slashes and dots, case flips, backslashes, climbing above the root, NUL) x methods x queries. MULTI-SITE Casketfiles written to disk and loaded from there (2-3 sites s0/s1/s2.c02.test, every ordered pair and sampled / every ordered triple over the root relations {contains the Casketfile directly, in a sub-directory, not at all (below / beside), sibling with a string-prefix name}; one port, one per site, two sharing; root spelled cleaned / trailing slash / with /./ / with x/../ / not at all (default root); blocks with two addresses), requests to EVERY site with its Host header: the Casketfile under every name it has in that root, its directory as HTML / JSON listing and as archive, random respellings; every directory x 24 spellings of ?limit= (HTML / JSON, sort, order); HEAD beside GET for every file and every hidden spelling (the file a header describes is identified by ETag, Content-Length, Last-Modified); a site with symbolic links (judged against the executable property only). Prefix-site cases are modelled like the others (the path the handlers see is computed as trimPathPrefix does); those whose path does not start with the prefix never reach the site and are judged against the executable property only (CContract). Non-trivial = answers 200 or 3xx",
 		Gen:    c02Gen,
 		Decode: func(raw json.RawMessage) (interface{}, error) { in := &c02In{}; return in, json.Unmarshal(raw, in) },
